@@ -304,6 +304,7 @@ def run(chk, repo, tier):
                       witness='a space separated file is read as one column')
     run_more(chk, repo)
     run_r7(chk, repo)
+    run_r8(chk, repo)
 
 
 def run_more(chk, repo):
@@ -454,3 +455,24 @@ def _leaves(e):
         yield from _leaves(e.operand)
     else:
         yield e
+
+
+def run_r8(chk, repo):
+    R8 = chk.rule('R8', 'write_csv writes values with full precision (no float_format / rounding options)', floor=1)
+    wm = repo.module('pharmpy.modeling.write_csv')
+    wf = wm.functions.get('write_csv')
+    calls = [c for c in calls_in(wf.node) if isinstance(c.func, ast.Attribute) and c.func.attr == 'to_csv']
+    if not calls:
+        raise AnalysisError('R8: to_csv call of write_csv not found')
+    for c in calls:
+        lossy = [k.arg for k in c.keywords if k.arg in ('float_format', 'decimal', 'quoting', 'chunksize') and k.arg in
+                 ('float_format', 'decimal')]
+        rounded = any(isinstance(x, ast.Call) and isinstance(x.func, ast.Attribute) and x.func.attr in ('round', 'astype')
+                      for x in ast.walk(c.func.value))
+        chk.instance(R8, f'write_csv: {unparse(c)[:90]} lossy options {lossy} rounding {rounded}')
+        if lossy or rounded:
+            chk.violation(R8, wm.rel, 'write_csv', unparse(c)[:110],
+                          'values that need 16-17 significant digits are written rounded; the dataset read back through the '
+                          'regenerated $DATA differs from model.dataset', line=c.lineno,
+                          witness='a computed covariate such as 0.1 + 0.2 or log(DV): write_csv + write_model + read_model gives '
+                                  'other bits')
